@@ -136,6 +136,17 @@ fn core_alphabet() -> Vec<Call> {
         Call::B(ValidatedFail),
         Call::Nested(Outer::Before, SharedRc),
         Call::Nested(Outer::Missing, MissingField),
+        Call::B(AnchoredTypeFail),
+        Call::B(FailInAliasReplay),
+        Call::B(BudgetExact),
+        Call::B(SharedArc),
+        Call::B(Recursive),
+        Call::B(DupKey),
+        Call::B(CaughtPanicInside),
+        Call::B(Multi),
+        Call::B(ReaderShared),
+        Call::Nested(Outer::Before, VisitorPanics),
+        Call::Nested(Outer::Unknown, SharedRc),
     ]
 }
 
@@ -374,7 +385,7 @@ type Tree = BTreeMap<String, serde_json::Value>;
 
 fn on_fresh_thread<T: Send + 'static>(f: impl FnOnce() -> T + Send + 'static) -> Result<T, String> {
     std::thread::Builder::new()
-        .stack_size(16 << 20)
+        .stack_size(2 << 20)
         .spawn(f)
         .map_err(|e| format!("cannot spawn: {e}"))?
         .join()
@@ -597,7 +608,7 @@ fn run_outer(o: Outer) -> String {
                 b: RcAnchor<Node>,
                 c: RcAnchor<Node>,
             }
-            match serde_saphyr::from_str::<D>("a: &x\n  n: 1\nmid: go\nb: *x\nc: &y\n  n: 2\n") {
+            match serde_saphyr::from_str::<D>("a: &x\n  n: 7\nmid: go\nb: *x\nc: &y\n  n: 8\n") {
                 Err(e) => err_obs(&e),
                 Ok(d) => format!(
                     "OK n=[{}, {}, {}] classes={:?}",
@@ -622,7 +633,7 @@ fn run_outer(o: Outer) -> String {
                 w: RcWeakAnchor<H>,
                 z: RcAnchor<Node>,
             }
-            match serde_saphyr::from_str::<D>("a: &h\n  first: &x\n    n: 1\n  mid: go\n  again: *x\nw: *h\nz: *x\n") {
+            match serde_saphyr::from_str::<D>("a: &h\n  first: &x\n    n: 7\n  mid: go\n  again: *x\nw: *h\nz: *x\n") {
                 Err(e) => err_obs(&e),
                 Ok(d) => format!(
                     "OK n=[{}, {}, {}] classes={:?} w-is-a={}",
@@ -643,7 +654,7 @@ fn run_outer(o: Outer) -> String {
                 mid: Mid,
                 n: i32,
             }
-            match serde_saphyr::from_str::<D>("a: &x\n  n: 1\nb: *x\nmid: go\nn: 5\n") {
+            match serde_saphyr::from_str::<D>("a: &x\n  n: 7\nb: *x\nmid: go\nn: 5\n") {
                 Err(e) => err_obs(&e),
                 Ok(d) => format!(
                     "OK n=[{}, {}, {}] classes={:?}",
@@ -696,9 +707,9 @@ fn run_outer(o: Outer) -> String {
 }
 fn outer_marker(o: Outer) -> &'static str {
     match o {
-        Outer::Shared => "OK n=[1, 1, 2] classes=[0, 0, 1]",
-        Outer::Inside => "OK n=[1, 1, 1] classes=[0, 0, 0] w-is-a=true",
-        Outer::Before => "OK n=[1, 1, 5] classes=[0, 0]",
+        Outer::Shared => "OK n=[7, 7, 8] classes=[0, 0, 1]",
+        Outer::Inside => "OK n=[7, 7, 7] classes=[0, 0, 0] w-is-a=true",
+        Outer::Before => "OK n=[7, 7, 5] classes=[0, 0]",
         Outer::Missing | Outer::Unknown => "ERR",
     }
 }
@@ -844,7 +855,7 @@ impl Property for C15 {
     const ID: &'static str = "C15";
     type Case = Case;
     fn rule() -> String {
-        "cases = call histories over an alphabet of 24 base calls (successful parse; syntax / type error midway through an anchored node; error inside an RcAnchor context and inside a replayed alias; budget breach; budget and alias-replay limit set exactly to what the document needs; shared RcAnchor / ArcAnchor / weak / RcRecursive parses observed through pointer classes and strong counts; missing-field, unknown-field and a root-level static serde error whose location can only come from the thread-local fallback; duplicate key; streaming iterator abandoned after one item / run to its failing end; Deserialize impl that panics (caught outside) and one whose panic is caught inside the document; serialisation with anchors and into a failing writer; garde-validated parse that fails; multi-document parse reusing anchor names; from_reader) plus 25 nested calls (an inner call performed inside the Deserialize impl of a field of an outer document whose anchors / aliases lie before, around and after it, or which ends in a missing-/unknown-field error). Every history runs on one fresh thread. Oracle: each call's observation (value Debug, or error Debug + rendered message with location, pointer classes, emitted text) equals the observation of the same call alone on a fresh thread; for nested calls the inner observation equals the isolated inner call and the outer observation equals the same outer document parsed without a nested call; isolated observations are equal on two fresh threads and contain the documented constants (sharing classes, anchors &a1/*a1). Exhaustive: all histories of length <= 3 over the full alphabet (quick; thorough: <= 4), all of length 4 over a 17-call core alphabet; random histories of length 4..12. Non-trivial: a failing / panicking / nested / abandoned call precedes a call whose observation includes pointer classes or a fallback location. distinct = distinct histories.".into()
+        "cases = call histories over an alphabet of 24 base calls (successful parse; syntax / type error midway through an anchored node; error inside an RcAnchor context and inside a replayed alias; budget breach; budget and alias-replay limit set exactly to what the document needs; shared RcAnchor / ArcAnchor / weak / RcRecursive parses observed through pointer classes and strong counts; missing-field, unknown-field and a root-level static serde error whose location can only come from the thread-local fallback; duplicate key; streaming iterator abandoned after one item / run to its failing end; Deserialize impl that panics (caught outside) and one whose panic is caught inside the document; serialisation with anchors and into a failing writer; garde-validated parse that fails; multi-document parse reusing anchor names; from_reader) plus 25 nested calls (an inner call performed inside the Deserialize impl of a field of an outer document whose anchors / aliases lie before, around and after it, or which ends in a missing-/unknown-field error). Every history runs on one fresh thread. Oracle: each call's observation (value Debug, or error Debug + rendered message with location, pointer classes, emitted text) equals the observation of the same call alone on a fresh thread; for nested calls the inner observation equals the isolated inner call and the outer observation equals the same outer document parsed without a nested call; isolated observations are equal on two fresh threads and contain the documented constants (sharing classes, anchors &a1/*a1). Exhaustive: all histories of length <= 3 over the full alphabet (quick; thorough: <= 4), all of length 4 over a 28-call core alphabet; random histories of length 4..12. Non-trivial: a failing / panicking / nested / abandoned call precedes a call whose observation includes pointer classes or a fallback location. distinct = distinct histories.".into()
     }
     fn assumptions() -> Vec<String> {
         vec![
@@ -958,7 +969,7 @@ impl Property for C15 {
         ctx.subspace(&format!("all histories of length {len} over the {m}-call core alphabet"), total, true);
         // --- random longer histories -----------------------------------------------------------------
         let strat = prop::collection::vec(prop::sample::select(alpha.clone()), 4..=12).prop_map(|calls| Case { calls });
-        ctx.run_strategy("random-histories", 1, ctx.tier.pick(6_000, 150_000), &strat, &note);
+        ctx.run_strategy("random-histories", 1, ctx.tier.pick(10_000, 150_000), &strat, &note);
         // histories biased towards disturbing calls followed by sensitive ones
         let dist: Vec<Call> = alpha.iter().copied().filter(disturbing).collect();
         let sens: Vec<Call> = alpha.iter().copied().filter(sensitive).collect();
@@ -984,7 +995,7 @@ impl Property for C15 {
                 }
                 Case { calls }
             });
-        ctx.run_strategy("random-disturb-then-observe", 2, ctx.tier.pick(6_000, 150_000), &strat, &note);
+        ctx.run_strategy("random-disturb-then-observe", 2, ctx.tier.pick(10_000, 150_000), &strat, &note);
         for (k, v) in stats.into_inner() {
             ctx.class_n(&k, v);
         }
